@@ -5,6 +5,7 @@ import builtins
 
 from sa import wiring
 from sa.callgraph import STRONG_KINDS
+from sa.dom import view, mentions
 from sa.model import AnalysisError, ClassInfo, FunctionInfo, call_name, loc, norm, walk_no_nested
 
 LEVEL_TEXT = ("Static structural proof of necessary conditions: (R2.1) the set of exception classes raised by explicit "
@@ -14,7 +15,7 @@ LEVEL_TEXT = ("Static structural proof of necessary conditions: (R2.1) the set o
               "exception that is caught, and PARENTHESES_MISMATCH is registered and reachable from string validation. "
               "Implicit exceptions (index/attribute/type errors from values), the tokenizer's span arithmetic, nesting = "
               "parenthesis nesting and print/re-parse equality are NOT decided.")
-LEVEL_EXTRA = 'Added after the seeded evaluation: (R2.3) every printer of a group visits every child, unfiltered; (R2.4) nothing returns before the parenthesis-count check. (R2.5) equality of tree objects never tests the other operand for truthiness.'
+LEVEL_EXTRA = 'Added after the seeded evaluation: (R2.3) every printer of a group visits every child, unfiltered; (R2.4) nothing returns before the parenthesis-count check. (R2.5) equality of tree objects never tests the other operand for truthiness. (R2.6) the validator decides parenthesis balance by a running depth over the text, not by comparing counts.'
 
 
 def exc_name(node):
@@ -204,6 +205,35 @@ def run(ctx):
     string_checks_always_run(ctx, "R2.4")
     ctx.rule("R2.3", "the printers (str / short / long / original form) visit every child of a group, unfiltered")
     print_all_children(ctx, "R2.3")
+    ctx.rule("R2.6", "the validator decides parenthesis balance like the parser does: by a running depth over the text, not by comparing counts")
+    sv_ = prog.find_class("StringValidator")
+    pc = sv_.methods.get("check_count_tag_group_parentheses")
+    if pc is None:
+        raise AnalysisError("anchor StringValidator.check_count_tag_group_parentheses vanished")
+    ctx.saw(pc)
+    vpc = view(ctx, pc)
+    from sa.dataflow import ReachingDefs as _RD2
+    rdp = _RD2(pc)
+    text_params = set(pc.params())
+    emits = [(n_, c) for (n_, c) in vpc.calls(lambda c: call_name(c).startswith("format_error") and "PARENTHESES_MISMATCH" in norm(c))]
+    ctx.floor("R2.6", "PARENTHESES_MISMATCH emissions in the count check", len(emits), 1)
+    loops = [lp for lp in walk_no_nested(pc.node) if isinstance(lp, ast.For) and any(isinstance(x, ast.Name) and x.id in text_params for x in ast.walk(lp.iter))]
+    loop_aug = set()
+    for lp in loops:
+        for x in ast.walk(lp):
+            if isinstance(x, ast.AugAssign) and isinstance(x.target, ast.Name) and isinstance(x.op, (ast.Add, ast.Sub)):
+                loop_aug.add(x.target.id)
+            if isinstance(x, ast.Call) and isinstance(x.func, ast.Attribute) and x.func.attr in ("append", "pop") and isinstance(x.func.value, ast.Name):
+                loop_aug.add(x.func.value.id)
+    delegated = any(isinstance(c, ast.Call) and call_name(c) in ("split_into_groups", "split_hed_string") for c in walk_no_nested(pc.node))
+    for n_, c in emits:
+        g = vpc.guard_for(n_, lambda t: True)
+        names = {x.id for x in ast.walk(g[0].ast) if isinstance(x, ast.Name)} if g is not None else set()
+        ok = bool(names & loop_aug) or delegated
+        ctx.check(ok, "R2.6", pc.qualname, c, loc(pc, c),
+                  "PARENTHESES_MISMATCH is decided by comparing the numbers of '(' and ')' only; the parser rejects by nesting depth, so "
+                  "`Red),(Blue` (equal counts, a ')' before its '(') parses to an empty tree and validates with no issue at all",
+                  desc="mismatch decided by a running depth over the text")
     ctx.rule("R2.5", "equality of tree objects never tests the other operand for truthiness (an empty group is falsy but is a tree)")
     n_eq = 0
     for c_ in prog.classes.values():
